@@ -252,6 +252,13 @@ func (h *handler1) handleClientPublish(ctx context.Context, snPublish *snPkts1.P
 	default:
 		return fmt.Errorf("invalid topic id type %d", snPublish.TopicIDType)
 	}
+	// Do not forward what is not a valid MQTT PUBLISH.
+	if hasWildcard(topic) {
+		return fmt.Errorf("wildcard in PUBLISH topic name %q", topic)
+	}
+	if (snPublish.QOS == 1 || snPublish.QOS == 2) && msgID == 0 {
+		return fmt.Errorf("zero MsgID in QoS %d PUBLISH", snPublish.QOS)
+	}
 	if snPublish.QOS == 1 {
 		h.transactions.Store(msgID, newClientPublishQOS1Transaction(ctx, h, msgID, snPublish.TopicID))
 	}
@@ -579,6 +586,10 @@ func (h *handler1) handleConnect(ctx context.Context, snConnect *snPkts1.Connect
 }
 
 func (h *handler1) handleSubscribe(ctx context.Context, snSubscribe *snPkts1.Subscribe) error {
+	// Do not forward what is not a valid MQTT SUBSCRIBE.
+	if snSubscribe.QOS > 2 || snSubscribe.MessageID() == 0 {
+		return fmt.Errorf("invalid QoS or MsgID in %v", snSubscribe)
+	}
 	var topic string
 	// From MQTT-SN specification v. 1.2, chapter 5.4.16 SUBACK:
 	// 	TopicID [...] [is] not relevant in case of subscriptions to a short topic name or to a topic name which
@@ -631,6 +642,10 @@ func (h *handler1) handleSubscribe(ctx context.Context, snSubscribe *snPkts1.Sub
 }
 
 func (h *handler1) handleUnsubscribe(snUnsubscribe *snPkts1.Unsubscribe) error {
+	// Do not forward what is not a valid MQTT UNSUBSCRIBE.
+	if snUnsubscribe.MessageID() == 0 {
+		return fmt.Errorf("zero MsgID in %v", snUnsubscribe)
+	}
 	var topic string
 	switch snUnsubscribe.TopicIDType {
 	case snPkts1.TIT_STRING:
@@ -764,6 +779,9 @@ func (h *handler1) handleMqttSn(ctx context.Context, pkt snPkts.Packet) error {
 
 	// Client PUBLISH QoS 2 transaction.
 	case *snPkts1.Pubrel:
+		if snPkt.MessageID() == 0 {
+			return fmt.Errorf("zero MsgID in %v", snPkt)
+		}
 		mqPubrel := mqPkts.NewControlPacket(mqPkts.Pubrel).(*mqPkts.PubrelPacket)
 		mqPubrel.MessageID = snPkt.MessageID()
 		return h.mqttSend(mqPubrel)
